@@ -133,6 +133,14 @@ def remap_uses(arm_body):
             r = x["recv"]
             names = hir.local_names(r)
             out += [n for n in names if n.endswith("_remap")]
+        elif x["e"] in ("call", "inlined"):
+            # the lookup wrapped in a helper: `remap_or_keep(type_remap, *id)` — a table handed (directly, or by reference) to a call together with the id
+            for a in x.get("args") or []:
+                y = a
+                while y and y.get("e") in ("ref", "unary", "deref") and y.get("x"):
+                    y = y["x"]
+                if y and y.get("e") == "path" and y.get("res") == "local" and str(y.get("name", "")).endswith("_remap") and len(x.get("args") or []) >= 2:
+                    out.append(y["name"])
     return out
 
 
